@@ -15,6 +15,11 @@ ifeq ($(V),tsan)
 SAN := -DVERIF_TSAN_VARIANT
 LSAN := -fsanitize=thread
 endif
+ifeq ($(V),cov)
+# measurement only (bin/coverage): gcov-instrumented archives, which lines of /repo the engines reach
+SAN := -DVERIF_COV
+LSAN := --coverage
+endif
 INC := -I$(REPO) -I$(REPO)/booster -I$(B) -I$(B)/booster -I$(REPO)/private -I$(REPO)/src -I$(REPO)/tests
 CXXF := -std=c++17 -O1 -g -w -DARTYOM_BEILIS_CPPCMS_VERIF $(SAN) -MMD -MP
 WRAP := $(shell tr -s ' \n' '\n' < $(H)/sim/wrap.list | sed '/^$$/d' | sed 's/^/-Wl,--wrap=/' | tr '\n' ' ')
